@@ -33,8 +33,9 @@ ITEM_TIMEOUT = int(os.environ.get("VF_ITEM_TIMEOUT", "30"))
 NPROC = int(os.environ.get("VF_NPROC", "0")) or min(16, os.cpu_count() or 1)
 
 
-class Hang(Exception):
-    pass
+class Hang(BaseException):
+    """Raised by the per-item watchdog; a BaseException so that 'except Exception' blocks in
+    checks and in the localiser cannot swallow it."""
 
 
 class Res:
@@ -175,7 +176,10 @@ def _work(task):
         for k in r.keys:
             out["keys"].add(h64(k))
         for k, v in r.counters.items():
-            out["counters"][k] = out["counters"].get(k, 0) + v
+            if k.startswith("max_"):
+                out["counters"][k] = max(out["counters"].get(k, 0), v)
+            else:
+                out["counters"][k] = out["counters"].get(k, 0) + v
         for f in r.fails:
             key = (f["kind"], f["sig"])
             slot = out["fails"].get(key)
